@@ -336,7 +336,7 @@ Definition kst (kcs : list kcls) (st : state) (x : option nat) : kstate :=
 Lemma set_bases_kst g st x kcs c k bases :
   Forall2 bases_match kcs (classes st) -> nth_error kcs c = Some k -> NoDup (map fst (cache st)) ->
   p_set_bases gen_Provides_changed g (kst kcs st x) (NC c) bases =
-  mkK (upd kcs c (mkKC (kc_pybases k) (kc_declared k) (kc_inherit k) bases (kc_provides k) (kc_meta k)))
+  mkK (upd kcs c (mkKC (kc_pybases k) (kc_declared k) (kc_inherit k) bases (kc_provides k) (kc_meta k) (kc_builtin k) (kc_created k)))
       (map embed_inst (insts st)) (map embed_entry (evict true (classes st) c (cache st))) x.
 Proof.
   intros HM Ek ND. unfold p_set_bases, kst. cbn [kclasses kinsts kcache kexc]. rewrite Ek.
@@ -432,11 +432,11 @@ Proof.
     rewrite E1. clear E1. rewrite dd_nil, kdedup_map_NI in *.
     assert (Hlen : c < length (map embed_cls (classes st))) by (rewrite map_length; eapply nth_error_lt; eauto).
     unfold p_set_declared, kset. cbn [embed_exc kclasses kinsts kcache kexc].
-    rewrite nth_error_embed_cls, E. cbn [option_map embed_cls kc_pybases kc_inherit kc_bases kc_provides kc_meta].
+    rewrite nth_error_embed_cls, E. cbn [option_map embed_cls kc_pybases kc_inherit kc_bases kc_provides kc_meta kc_builtin kc_created].
     unfold p_inherit_is_set, p_inherit_pybases, kget. cbn [kclasses]. rewrite nth_error_upd_eq by auto.
     cbn [kc_inherit kc_pybases]. rewrite negb_involutive.
     set (k1 := mkKC (c_bases r) (map NI (dedup L)) (c_inherit r) (spec_bases r)
-                    (map NI (c_cprov r) ++ [p_implementedBy (meta_ref (c_meta r))]) (c_meta r)).
+                    (map NI (c_cprov r) ++ [p_implementedBy (meta_ref (c_meta r))]) (c_meta r) (c_builtin r) true).
     assert (HB : exists seen2,
       (if c_inherit r
        then let '(s, new_declared, seen, bases) :=
@@ -526,12 +526,12 @@ Proof.
     unfold p_set_declared, p_set_inherit_none, kset. cbn [embed_exc kclasses kinsts kcache kexc].
     rewrite nth_error_embed_cls, E. cbn [option_map kclasses]. rewrite nth_error_upd_eq by auto.
     cbn [kclasses kinsts kcache kexc]. rewrite upd_upd.
-    cbn [embed_cls kc_pybases kc_declared kc_inherit kc_bases kc_provides kc_meta].
+    cbn [embed_cls kc_pybases kc_declared kc_inherit kc_bases kc_provides kc_meta kc_builtin kc_created].
     match goal with |- context [p_set_bases _ _ (mkK (upd _ c ?k) _ _ _) _ _] => set (k2 := k) end.
     fold (kst (upd (map embed_cls (classes st)) c k2) st x).
     rewrite (set_bases_kst g st x _ c k2); auto.
     + rewrite upd_upd.
-      replace (mkK _ _ _ x) with (embed_exc (set_class true st c (mkC (c_bases r) [] false (c_cprov r) (c_meta r))) x).
+      replace (mkK _ _ _ x) with (embed_exc (set_class true st c (mkC (c_bases r) [] false (c_cprov r) (c_meta r) (c_builtin r))) x).
       * change (@nil node) with (map NI []). apply generated_classImplements_ordered_eq.
         cbn [set_class cache evict]. apply NoDup_map_fst_filter; auto.
       * unfold set_class, embed_exc. cbn [classes insts cache]. f_equal. rewrite map_upd. f_equal.
@@ -619,12 +619,12 @@ Lemma generated_directlyProvides_eq g st x t l :
   gen_directlyProvides g (embed_exc st x) t (map NI l) = embed_exc (directly g st t l) x.
 Proof.
   intros TL. unfold gen_directlyProvides. cbv zeta. destruct t as [o|c].
-  - destruct TL as [r [E Hl]].
+  - destruct TL as [r [E [Hl Hnb]]].
     assert (Hc : p_getattr_class (embed_exc st x) (TInst o) = RClass (i_cls r)).
     { cbn. rewrite nth_error_map, E. auto. }
     rewrite Hc. cbn [p_is_none_ref negb andb p_getattr_class_of_class kclsref_eqb p_issubclass_type
                      p_issubclass_module p_normalizeargs].
-    cbn [directly]. unfold direct_inst. rewrite E, Hl.
+    cbn [directly]. unfold direct_inst. rewrite E, Hl, Hnb. cbn [negb andb].
     destruct (provides g st (i_cls r) l) as [st1 k] eqn:P.
     rewrite (generated_Provides_eq _ _ _ _ _ _ _ P).
     destruct (provides_frame _ _ _ _ _ _ P) as [Hcs His].
@@ -642,21 +642,23 @@ Proof.
       match nth_error (classes st) c with
       | Some r => mkK (upd (map embed_cls (classes st)) c
                            (mkKC (c_bases r) (map NI (c_decl r)) (c_inherit r) (spec_bases r)
-                                 (gen_add_interfaces_to_cls g (embed_exc st x) (map NI l) ref) (c_meta r)))
+                                 (gen_add_interfaces_to_cls g (embed_exc st x) (map NI l) ref) (c_meta r) (c_builtin r) true))
                       (map embed_inst (insts st)) (map embed_entry (cache st)) x
       | None => embed_exc st x
       end).
     { intros ref. unfold p_set_provides, p_new_class_provides, kset. cbn [embed_exc kclasses kinsts kcache kexc snd].
       rewrite nth_error_map. destruct (nth_error (classes st) c); auto. }
     destruct (nth_error (classes st) c) as [r|] eqn:E.
-    + assert (Hres : mkK (upd (map embed_cls (classes st)) c
+    + assert (Hnb : c_builtin r = false) by (unfold target_live, class_builtin in TL; rewrite E in TL; auto).
+      rewrite Hnb.
+      assert (Hres : mkK (upd (map embed_cls (classes st)) c
                            (mkKC (c_bases r) (map NI (c_decl r)) (c_inherit r) (spec_bases r)
-                                 (gen_add_interfaces_to_cls g (embed_exc st x) (map NI l) (meta_ref (c_meta r))) (c_meta r)))
+                                 (gen_add_interfaces_to_cls g (embed_exc st x) (map NI l) (meta_ref (c_meta r))) (c_meta r) (c_builtin r) true))
                       (map embed_inst (insts st)) (map embed_entry (cache st)) x =
                      embed_exc (mkS (upd (classes st) c (mkC (c_bases r) (c_decl r) (c_inherit r)
-                                      (keepnew (closure g (meta_direct r)) l) (c_meta r))) (insts st) (cache st)) x).
+                                      (keepnew (closure g (meta_direct r)) l) (c_meta r) false)) (insts st) (cache st)) x).
       { unfold embed_exc. cbn [classes insts cache]. rewrite map_upd. f_equal. f_equal.
-        rewrite generated_add_interfaces_to_cls_meta. reflexivity. }
+        rewrite generated_add_interfaces_to_cls_meta, Hnb. reflexivity. }
       destruct (c_meta r) as [ml|] eqn:Em; cbn [meta_ref p_is_none_ref negb andb p_getattr_class_of_class
           kclsref_eqb p_isinstance_type p_issubclass_type p_normalizeargs]; rewrite Hset, <- Hres; reflexivity.
     + cbn [p_is_none_ref negb andb p_getattr_class_of_class kclsref_eqb p_isinstance_type
@@ -736,10 +738,11 @@ Proof. intros H. unfold class_ordered. destruct (nth_error (classes st) c); auto
 Lemma cku_directly g st t l : cache_keys_unique st -> cache_keys_unique (directly g st t l).
 Proof.
   intros H. destruct t as [o|c]; cbn [directly].
-  - unfold direct_inst. destruct (nth_error (insts st) o) as [r|]; auto. destruct (i_live r); auto.
+  - unfold direct_inst. destruct (nth_error (insts st) o) as [r|]; auto.
+    destruct (i_live r && negb (class_builtin st (i_cls r))); auto.
     unfold provides. destruct (cache_get (i_cls r, l) (cache st)) eqn:E; cbn [cache]; auto.
     unfold cache_keys_unique. cbn [cache map fst]. constructor; auto. apply cache_get_none_notin; auto.
-  - unfold direct_cls. destruct (nth_error (classes st) c); auto.
+  - unfold direct_cls. destruct (nth_error (classes st) c) as [r|]; auto. destruct (c_builtin r); auto.
 Qed.
 
 Lemma cku_step ev g st o : cache_keys_unique st -> cache_keys_unique (step ev g st o).
@@ -768,12 +771,12 @@ Definition op_target_live (st : state) (o : op) : Prop :=
 
 Lemma generated_step_eq g st o :
   cache_keys_unique st -> is_declaration o = true -> op_target_live st o ->
-  gen_step g (embed st) o =
+  gen_step g (embed st) o (nargs st (op_args o)) =
   embed_exc (step true g st o) (if raises g (step true g st o) o then Some exc_ValueError else None).
 Proof.
   intros ND Hd TL. unfold op_target_live in TL.
   destruct o; cbn [is_declaration decl_class decl_target] in *; try discriminate;
-    cbn [gen_step step raises]; unfold embed.
+    cbn [gen_step step raises op_args]; unfold embed.
   - apply generated_classImplements_eq; auto.
   - apply generated_classImplementsOnly_eq; auto.
   - apply generated_classImplements_eq; auto.
@@ -794,7 +797,7 @@ Lemma generated_step_eq_spelled g st o :
   NoDup (map fst (cache st)) ->
   (decl_class o <> None \/ decl_target o <> None) ->
   (forall t, decl_target o = Some t -> target_live st t) ->
-  gen_step g (embed st) o =
+  gen_step g (embed st) o (nargs st (op_args o)) =
   embed_exc (step true g st o) (if raises g (step true g st o) o then Some exc_ValueError else None).
 Proof.
   intros ND Hd TL. apply generated_step_eq; auto.
@@ -822,4 +825,191 @@ Proof.
   fold (embed_exc st x). rewrite generated_add_interfaces_to_cls_meta.
   unfold embed_exc. f_equal. apply upd_same. rewrite nth_error_map, E. cbn [option_map].
   unfold embed_cls. rewrite Hp. reflexivity.
+Qed.
+
+(* ------------------------------------------------------------------ implementedBy (translated) = lazy creation (Model/DeclLazy.v) *)
+From ZI Require Import Proofs.DeclLazy.
+
+Lemma nth_error_combine {A B} (l : list A) (m : list B) n a b :
+  nth_error l n = Some a -> nth_error m n = Some b -> nth_error (combine l m) n = Some (a, b).
+Proof.
+  revert m n; induction l as [|x l IH]; intros [|y m] [|n] Ha Hb; cbn in *; try discriminate; auto.
+  inversion Ha; inversion Hb; auto.
+Qed.
+
+Lemma nth_error_flag (fl : list bool) c : c < length fl -> nth_error fl c = Some (zcreated fl c).
+Proof.
+  unfold zcreated. revert c; induction fl as [|b fl IH]; intros [|c] H; cbn in *; try lia; auto. apply IH; lia.
+Qed.
+
+Lemma combine_upd_r {A B} (l : list A) (m : list B) n a b :
+  nth_error l n = Some a -> combine l (upd m n b) = upd (combine l m) n (a, b).
+Proof.
+  revert m n; induction l as [|x l IH]; intros [|y m] [|n] Ha; cbn in *; try discriminate; auto.
+  - inversion Ha; auto.
+  - f_equal; auto.
+Qed.
+
+Lemma dedup_NoDup_id l : NoDup l -> dedup l = l.
+Proof.
+  induction 1 as [|x l Hx Hn IH]; cbn [dedup]; auto. rewrite IH. f_equal. apply filter_id_on.
+  intros y Hy. apply negb_true_iff, Nat.eqb_neq. intro; subst; auto.
+Qed.
+
+Lemma kclasses_zembed cs ins ca fl x c r :
+  length fl = length cs -> nth_error cs c = Some r ->
+  nth_error (kclasses (zembed (mkS cs ins ca, fl) x)) c = Some (zembed_cls (r, zcreated fl c)).
+Proof.
+  intros L E. unfold zembed. cbn [kclasses fst snd classes]. rewrite nth_error_map.
+  rewrite (nth_error_combine _ _ _ _ _ E (nth_error_flag fl c ltac:(rewrite L; eapply nth_error_lt; eauto))). auto.
+Qed.
+
+(* implementedBy only creates specifications of the class and of classes below it *)
+Lemma zensure_below cs : wf_classes cs -> forall f fl b d,
+  zcreated (zensure_f cs f fl b) d = true -> zcreated fl d = true \/ d <= b.
+Proof.
+  intros W. induction f as [|f IH]; intros fl b d H; cbn [zensure_f] in H; auto.
+  destruct (zcreated fl b) eqn:Eb; auto. destruct (nth_error cs b) as [r|] eqn:E; auto.
+  destruct (Nat.eq_dec b d) as [->|Hne]; [right; lia|].
+  unfold zcreated in H. rewrite nth_upd_ne in H by auto.
+  fold (zcreated (fold_left (zensure_f cs f) (c_bases r) fl) d) in H.
+  assert (Hl : forall l fl0, (forall b', In b' l -> b' < b) ->
+             zcreated (fold_left (zensure_f cs f) l fl0) d = true -> zcreated fl0 d = true \/ d < b).
+  { induction l as [|b' l IHl]; intros fl0 Hb H0; cbn in H0; auto.
+    destruct (IHl _ (fun x Hx => Hb x (or_intror Hx)) H0) as [H1|H1]; auto.
+    apply IH in H1. destruct H1 as [H1|H1]; auto. right. pose proof (Hb b' (or_introl eq_refl)). lia. }
+  destruct (Hl _ _ (fun x Hx => W _ _ _ E Hx) H) as [H1|H1]; auto. right. lia.
+Qed.
+
+Lemma kset_some K I C X c k f :
+  nth_error K c = Some k -> kset (mkK K I C X) (NC c) f = mkK (upd K c (f k)) I C X.
+Proof. intros E. unfold kset. cbn [kclasses kinsts kcache kexc]. rewrite E. auto. Qed.
+
+Lemma kset_upd K I C X c k f :
+  c < length K -> kset (mkK (upd K c k) I C X) (NC c) f = mkK (upd K c (f k)) I C X.
+Proof. intros H. rewrite (kset_some _ _ _ _ c k); [rewrite upd_upd; auto|apply nth_error_upd_eq; auto]. Qed.
+
+Definition zok (cs : list crec) (fl : list bool) : Prop :=
+  length fl = length cs /\ closedfl cs fl /\
+  (forall c r, nth_error cs c = Some r -> zcreated fl c = false -> dflt r).
+
+Lemma zok_ensure cs : wf_classes cs -> forall f fl b, zok cs fl -> b < f -> zok cs (zensure_f cs f fl b).
+Proof.
+  intros W f fl b [L [Cl D]] Hb. split; [|split].
+  - rewrite zensure_length; auto.
+  - apply (zensure_closed cs W f fl b L Cl Hb).
+  - intros c r E Hc. apply (D c r E). destruct (zcreated fl c) eqn:Ec; auto.
+    rewrite (zensure_mono _ _ _ _ _ Ec) in Hc. discriminate.
+Qed.
+
+Lemma fold_zok cs : wf_classes cs -> forall f l fl, (forall b, In b l -> b < f) -> zok cs fl ->
+  zok cs (fold_left (zensure_f cs f) l fl).
+Proof.
+  intros W f. induction l as [|b l IHl]; intros fl Hl Hok; cbn [fold_left]; auto.
+  apply IHl; [intros; apply Hl; right; auto|]. apply zok_ensure; auto. apply Hl; left; auto.
+Qed.
+
+Lemma fold_uncreated cs : wf_classes cs -> forall f c l fl, (forall b, In b l -> b < c) -> zcreated fl c = false ->
+  zcreated (fold_left (zensure_f cs f) l fl) c = false.
+Proof.
+  intros W f c. induction l as [|b l IHl]; intros fl Hl Hc; cbn [fold_left]; auto.
+  apply IHl; [intros; apply Hl; right; auto|]. destruct (zcreated (zensure_f cs f fl b) c) eqn:E2; auto.
+  apply (zensure_below cs W) in E2. destruct E2 as [E2|E2]; [congruence|].
+  pose proof (Hl b (or_introl eq_refl)). lia.
+Qed.
+
+Lemma gen_implementedBy_eq g x cs ins ca :
+  wf_classes cs -> (forall c r, nth_error cs c = Some r -> NoDup (c_bases r)) ->
+  forall f fl c, zok cs fl -> c < f -> c < length cs ->
+  gen_implementedBy f g (zembed (mkS cs ins ca, fl) x) (RClass c) =
+  (zembed (mkS cs ins ca, zensure_f cs f fl c) x, NC c).
+Proof.
+  intros W Nd. induction f as [|f IH]; intros fl c Hok Hf Hc; [lia|].
+  destruct (nth_error cs c) as [r|] eqn:E; [|apply nth_error_None in E; lia].
+  destruct Hok as [L [Cl D]].
+  pose proof (kclasses_zembed cs ins ca fl x c r L E) as Ek.
+  set (S0 := zembed (mkS cs ins ca, fl) x) in *.
+  assert (Hdict : p_dict_get_implemented S0 (RClass c) =
+                  if zcreated fl c && negb (c_builtin r) then DSpec (NC c) else DNone).
+  { unfold p_dict_get_implemented. rewrite Ek. unfold zembed_cls, embed_cls. cbn [fst snd].
+    destruct (zcreated fl c), (c_builtin r); reflexivity. }
+  assert (Htab : p_table_get S0 (RClass c) = if zcreated fl c && c_builtin r then DSpec (NC c) else DNone).
+  { unfold p_table_get, kcget. rewrite Ek. unfold zembed_cls, embed_cls. cbn [fst snd].
+    destruct (zcreated fl c), (c_builtin r); reflexivity. }
+  assert (Hpy : p_pybases S0 (RClass c) = map RClass (c_bases r)).
+  { unfold p_pybases, kcget. rewrite Ek. unfold zembed_cls, embed_cls. cbn [fst snd].
+    destruct (zcreated fl c), (c_builtin r); reflexivity. }
+  cbn [gen_implementedBy zensure_f]. cbv zeta. unfold p_isinstance_super. rewrite !Hdict, !Htab, !Hpy.
+  destruct (zcreated fl c) eqn:Ecr.
+  - (* the specification exists: __dict__ or the builtin table *)
+    destruct (c_builtin r); reflexivity.
+  - (* creation from the bases' specifications *)
+    destruct (D c r E Ecr) as [Hd [Hi Hp]].
+    cbn [andb p_dv_is_implements p_dv_is_none negb].
+    assert (Hb : forall b, In b (c_bases r) -> b < f /\ b < length cs).
+    { intros b Hb. pose proof (W _ _ _ E Hb). lia. }
+    assert (Hfold : forall l fl0 acc, (forall b, In b l -> b < f /\ b < length cs) -> zok cs fl0 ->
+      fold_left (fun '(s, acc) c0 => let '(s0, v) := gen_implementedBy f g s c0 in (s0, acc ++ [v]))
+                (map RClass l) (zembed (mkS cs ins ca, fl0) x, acc)
+      = (zembed (mkS cs ins ca, fold_left (zensure_f cs f) l fl0) x, acc ++ map NC l)).
+    { induction l as [|b l IHl]; intros fl0 acc Hl Hok0; cbn [map fold_left]; [rewrite app_nil_r; auto|].
+      destruct (Hl b (or_introl eq_refl)) as [Hb1 Hb2]. rewrite (IH fl0 b Hok0 Hb1 Hb2).
+      rewrite IHl; [|intros; apply Hl; right; auto|apply zok_ensure; auto].
+      rewrite <- app_assoc. reflexivity. }
+    subst S0. rewrite (Hfold (c_bases r) fl [] Hb (conj L (conj Cl D))). cbn [app].
+    set (fl1 := fold_left (zensure_f cs f) (c_bases r) fl).
+    assert (Hok1 : zok cs fl1).
+    { apply fold_zok; auto.
+      - intros b Hb'. apply (proj1 (Hb b Hb')).
+      - split; [|split]; auto. }
+    assert (Hc1 : zcreated fl1 c = false).
+    { apply fold_uncreated; auto. intros b Hb'. eapply W; eauto. }
+    destruct Hok1 as [L1 [Cl1 D1]].
+    pose proof (kclasses_zembed cs ins ca fl1 x c r L1 E) as Ek1. rewrite Hc1 in Ek1.
+    set (K := map zembed_cls (combine cs fl1)).
+    change (zembed (mkS cs ins ca, fl1) x) with (mkK K (map embed_inst ins) (map embed_entry ca) x) in *.
+    cbn [kclasses] in Ek1.
+    change (zembed_cls (r, false)) with (mkKC (c_bases r) [] false [] [] (c_meta r) (c_builtin r) false) in Ek1.
+    assert (HcK : c < length K) by (eapply nth_error_lt; eauto).
+    unfold p_implements_named, p_implements_name, kcset. rewrite (kset_some _ _ _ _ c _ _ Ek1).
+    cbv iota beta. cbn [p_dv_spec p_implementedBy].
+    unfold p_set_inherit_cls. rewrite kset_upd by auto. unfold p_set_implements_cls.
+    assert (Hcan : forall k, p_can_setattr (mkK (upd K c k) (map embed_inst ins) (map embed_entry ca) x) (RClass c)
+                             = negb (kc_builtin k)).
+    { intros k. unfold p_can_setattr, kcget. cbn [kclasses]. rewrite nth_error_upd_eq by auto. auto. }
+    rewrite Hcan. cbn [kc_builtin kc_pybases kc_provides kc_meta kc_created].
+    rewrite E.
+    assert (Hfin : map zembed_cls (combine cs (upd fl1 c true)) = upd K c (zembed_cls (r, true))).
+    { rewrite (combine_upd_r _ _ _ r true E), map_upd. reflexivity. }
+    unfold zembed at 1. cbn [fst snd classes insts cache]. fold fl1. rewrite Hfin.
+    assert (Hbs : spec_bases r = map NC (c_bases r)).
+    { unfold spec_bases. rewrite Hd, Hi, (dedup_NoDup_id _ (Nd _ _ E)). reflexivity. }
+    destruct (c_builtin r) eqn:Eb; cbn [negb].
+    + (* immutable type: the builtin table *)
+      cbn [p_as_object p_isinstance_type negb].
+      unfold p_table_set, kmark_created, kcset. rewrite kset_upd by auto.
+      cbn [kc_builtin kc_pybases kc_provides kc_meta kc_created kc_declared kc_inherit kc_bases p_dv_spec].
+      unfold zembed_cls. cbn [fst snd]. rewrite Eb, Hd, Hi, Hbs. reflexivity.
+    + unfold p_store_dict, kmark_created, kcset. rewrite kset_upd by auto.
+      unfold p_hasattr_providedBy, p_install_osd. cbn [negb]. cbv iota beta.
+      cbn [p_as_object p_isinstance_type p_has_own_provides negb andb]. cbv iota beta.
+      unfold p_set_provides, p_new_class_provides. cbn [snd]. rewrite kset_upd by auto.
+      cbn [kc_builtin kc_pybases kc_provides kc_meta kc_created kc_declared kc_inherit kc_bases p_dv_spec].
+      assert (Hga : forall k, p_getattr_class (mkK (upd K c k) (map embed_inst ins) (map embed_entry ca) x) (TCls c)
+                              = meta_ref (kc_meta k)).
+      { intros k. cbn [p_getattr_class kclasses]. rewrite nth_error_upd_eq by auto. auto. }
+      rewrite Hga. cbn [kc_meta]. change (@nil node) with (map NI []).
+      rewrite generated_add_interfaces_to_cls_meta. cbn [keepnew filter map app].
+      unfold zembed_cls, embed_cls. cbn [fst snd]. rewrite Eb, Hd, Hi, Hp, Hbs. reflexivity.
+Qed.
+
+Lemma generated_implementedBy_eq_lazy g qs x c :
+  let z := zrun g qs in
+  c < length (classes (fst z)) ->
+  gen_implementedBy (S c) g (zembed z x) (RClass c) = (zembed (zensure z c) x, NC c).
+Proof.
+  intros z Hc. pose proof (zrun_inv g qs) as I. fold z in I. destruct z as [[cs ins ca] fl].
+  destruct I as [L W Cl D B Ii Ic Nd]. cbn [fst snd classes] in *.
+  unfold zensure. cbn [fst snd classes].
+  apply gen_implementedBy_eq; auto. split; [|split]; auto.
 Qed.
